@@ -267,7 +267,7 @@ class P(Prop):
                 "(Model/ProjTrack.lean): output = Track(), addObs(Obs(proj[0])) with the default time stamp, createAnalyticalFeature('dist' / 'edge', list) through "
                 "the feature-table model of C01 (Model/Features.lean createC: silent no-op on an existing name, AnalyticalFeatureError on an empty track), the "
                 "track of queries and the reference track with their own features and time stamps, chained calls (mapChain); Float instance, bit patterns")
-    rule = ("exhaustive lattice scopes, then random polylines of 2..5 (one in nine: 6..30, one in eighty: 31..120) vertices built from oblique / horizontal / "
+    rule = ("exhaustive lattice scopes, then random polylines of 2..5 (one in nine: 6..30, one in eighty: 31..120, one in 1250: 300..1200) vertices built from oblique / horizontal / "
             "vertical / zero-length / collinear (forward and folding back) / back-to-an-earlier-vertex steps in every direction. Streams: integer lattice (exact in "
             "double arithmetic), two-decimal coordinates, longitudes / latitudes with 5 decimals around (2.35, 48.85), projected coordinates around "
             "(650000, 6860000), and 'nearaxis' (two-decimal, vertical / horizontal steps off by 0..1e6 ulps, very short segments 1e-17..1e-3 around the 1e-16 skip "
@@ -276,7 +276,7 @@ class P(Prop):
             "polyline, float / numpy scalar / int for the query, Yp longer or shorter than Xp; positions ENUCoords / GeoCoords / ECEFCoords with altitudes flat, "
             "equal on track and query, only on the track, only on the query, varying, NaN (the projection is planimetric: every clause is checked in the (X, Y) "
             "plane); sequences on ONE track object: project, modify in place (vertex moved, whole track shifted, vertex appended, object replaced), project "
-            "again — each projection checked against the geometry of that moment; mapOnTrack(track, track) on track objects that carry STATE (kind mapf, "
+            "again (one query in four repeats an earlier query of the sequence) — each projection checked against the geometry of that moment; mapOnTrack(track, track) on track objects that carry STATE (kind mapf, "
             "1 random case in 13): the track of queries has analytical features of its own (names among dist, edge, speed, abs_curv, ...: one case in two "
             "has a feature called dist and / or edge, the names mapOnTrack writes) and time stamps, the reference tracks have features, 0..2 further calls are "
             "chained (the output track of call k, which carries the dist / edge of call k, is the track of queries of call k + 1, on the same / a shifted / "
@@ -479,7 +479,7 @@ class P(Prop):
     def random_case(self, rng, stream):
         kind = rng.choices(["seg", "poly", "polyxy", "map", "proj", "mapt", "seq", "mapf"], weights=[30, 40, 4, 20, 8, 10, 8, 10])[0]
         r = rng.random()
-        n = 2 if kind == "seg" else (rng.randint(31, 120) if r < 0.0125 else rng.randint(6, 30) if r < 0.125 else rng.randint(2, 5))
+        n = 2 if kind == "seg" else (rng.randint(300, 1200) if r < 0.0008 else rng.randint(31, 120) if r < 0.0125 else rng.randint(6, 30) if r < 0.125 else rng.randint(2, 5))
         pts = self.rand_points(rng, stream, n)
         X, Y = [p[0] for p in pts], [p[1] for p in pts]
         if kind in ("seg", "poly", "polyxy"):
@@ -596,9 +596,16 @@ class P(Prop):
                 "X": [p[0] for p in pts], "Y": [p[1] for p in pts], "Z": list(Z), "ops": []}
         alts = sorted({v for v in Z if v is not None} | {0.0})
 
+        asked = []
+
         def query():
+            # one query in four is one that was already projected earlier in the sequence (same coordinates, the track having
+            # possibly changed in between): an answer remembered per query would be stale
+            if asked and rng.random() < 0.25:
+                return list(rng.choice(asked))
             q = self.rand_query(rng, stream, pts)
-            return [q[0], q[1], rng.choice(alts + ([None] if alt == "nan" else []))]
+            asked.append([q[0], q[1], rng.choice(alts + ([None] if alt == "nan" else []))])
+            return list(asked[-1])
         ops = case["ops"]
         ops.append(["q"] + query())
         for _ in range(rng.randint(1, 5)):
@@ -669,7 +676,7 @@ class P(Prop):
     def describe(self, case):
         X, Y = self.poly_of(case)
         segs = segments(X, Y)
-        t = {"kind": case["kind"], "stream": case.get("stream", "enum"), "vertices": len(X) if len(X) <= 5 else "6-30" if len(X) <= 30 else "31-120"}
+        t = {"kind": case["kind"], "stream": case.get("stream", "enum"), "vertices": len(X) if len(X) <= 5 else "6-30" if len(X) <= 30 else "31-120" if len(X) <= 120 else "300-1200"}
         t["orient"] = "".join(sorted({("z" if degenerate(s) else "v" if s[0] == s[2] else "h" if s[1] == s[3] else "o") for s in segs}))
         if case["kind"] in ("seg", "poly", "polyxy"):
             t["container"] = case.get("cont", "list")
